@@ -96,6 +96,10 @@ LINES_AS = [
     ["lit:set routing-options autonomous-system ", "as"],
     ["lit:ip as-path access-list 1 permit _", "as", "lit:_"],
     ["lit: bgp confederation peers ", "as", "lit: ", "as"],
+    ["lit: set extcommunity rt ", "as", "lit::100 additive"],
+    ["lit:route-target export ", "as", "lit::", "as"],
+    ["lit: neighbor ", "a4", "lit: local-as ", "as", "lit:, remote-as ", "as", "lit:;"],
+    ["lit:! peers (AS", "as", "lit:) and [", "as", "lit:]"],
 ]
 LINES_W = [
     ["lit:hostname ", "w", "lit:-r1"],
